@@ -25,8 +25,9 @@ def spec(tier):
                     cfg = dict(algo=algo, pools=pools, oc=oc, multi=multi, duration=dur, pipes=pp)
                     nm = f"runs_{algo}_P{pools}_{'multi' if multi else 'single'}_{wname}_d{dur}"
                     if algo in ("priority", "priority-pool"):
-                        obs.append(CH(name=nm + "_cpu", harness="rsim.runs_to_end", sym=dict(cpus=I(1, 20), ma=I(1, 8), mb=I(1, 8), ta=I(0, 3)),
-                                      fixed=dict(cfg=cfg, ram=25, da=2, db=1), timeout=1500))
+                        for (clo, chi) in ((1, 9), (10, 20)):
+                            obs.append(CH(name=nm + f"_cpu{clo}", harness="rsim.runs_to_end", sym=dict(cpus=I(clo, chi), ma=I(1, 8), mb=I(1, 8), ta=I(0, 3)),
+                                          fixed=dict(cfg=cfg, ram=25, da=2, db=1), timeout=1500))
                         obs.append(CH(name=nm + "_ram", harness="rsim.runs_to_end", sym=dict(ram=I(1, 40), ma=I(1, 8), ta=I(0, 3)),
                                       fixed=dict(cfg=cfg, cpus=3, da=1, db=2, mb=1), timeout=1500))
                     else:
@@ -36,8 +37,9 @@ def spec(tier):
     # overbook: abandonment while sibling operators are queued and CPUs are scarce
     cfg2 = dict(algo="overbook", pools=2, oc=True, multi=False, duration=12,
                 pipes=[pipe("single", prio=3, at=0, durs=[1], mems=["mb"]), pipe("fork4", prio=2, at="ta", durs=["da", 2, 2, 2], mems=[1, "ma", 1, 1])])
-    obs.append(CH(name="runs_overbook_abandon_fork", harness="rsim.runs_to_end",
-                  sym=dict(cpus=I(1, 3), ram=I(2, 8), ma=I(0, 9), mb=I(0, 9), ta=I(0, 3), da=I(1, 3)), fixed=dict(cfg=cfg2, db=1), timeout=1200))
+    for cv in (1, 2, 3):
+        obs.append(CH(name=f"runs_overbook_abandon_fork_cpu{cv}", harness="rsim.runs_to_end",
+                      sym=dict(ram=I(2, 8), ma=I(0, 9), mb=I(0, 9), ta=I(0, 3), da=I(1, 3)), fixed=dict(cfg=cfg2, db=1, cpus=cv), timeout=1200))
     # priority: a suspended job is resumed and further jobs are placed in the same round
     cfg3 = dict(algo="priority", pools=1, multi=True, duration=14,
                 pipes=[pipe("chain2", prio=3, at=0, durs=[1, 3]), pipe("chain2", prio=2, at=0, durs=[1, 2]), pipe("single", prio=1, at="ta", durs=[2]),
